@@ -18,7 +18,7 @@ RULE = ("cross product of every registered generator (keys of GENERATORS_MAP rea
         "(spaces, dots, unicode, 0, 999, 1000, 12345, 10**6); every pair differing in exactly one field from 3 base configs; "
         "malformed serialized data (unknown generator, legacy string generator, missing optional fields, kwargs None, inverted "
         "seq_len bounds, non-dict). non-trivial = configuration with at least one non-default custom field; distinct = distinct "
-        "serialized content. Thorough: 10x more random field combinations, larger name alphabet.")
+        "serialized content. Thorough: 10x more random field combinations, larger name alphabet.; later additions: endpoints_not_equal among the endpoint options, list-valued filter arguments, identity after in-place edits, edits of a loaded config must not leak into later loads")
 ASSUMPTIONS = ["configuration values are JSON-native below the places where the loading functions restore tuples (generator kwargs, filter args/kwargs "
                "contain no tuples); a tuple inside maze_ctor_kwargs comes back as a list (modelled, shown in the correspondence, outside the theorem's hypothesis)",
                "seed is an int (seed=None draws a random seed in __post_init__ and is outside the round-trip claim)",
